@@ -3,20 +3,24 @@ package harness
 // C11 — the HTTP server runs handlers only for valid requests and always answers well-formed.
 
 import (
+	"bufio"
 	"bytes"
 	"context"
 	"encoding/base64"
 	"fmt"
 	spb "google.golang.org/genproto/googleapis/rpc/status"
+	"google.golang.org/protobuf/encoding/protowire"
 	"google.golang.org/protobuf/types/known/anypb"
 	"io"
 	"mime"
+	"net"
 	"net/http"
 	"net/http/httptest"
 	"runtime/debug"
 	"strings"
 	"sync"
 	"testing"
+	"time"
 
 	"google.golang.org/grpc"
 	"google.golang.org/grpc/codes"
@@ -35,19 +39,24 @@ type HdrPair struct {
 }
 
 type c11Case struct {
-	Carrier  string // http | httpmux
-	NoLength bool   `json:",omitempty"` // the request arrives without a declared length (chunked upload, HTTP/2 without content-length)
-	Detail   bool   `json:",omitempty"` // the handler's error status carries a detail (an Any of a type the server does not know)
-	Renderer bool   `json:",omitempty"` // the server is configured with a custom ErrorRenderer (errors in band: always 200); it is application code too
-	Base     string `json:",omitempty"` // base path the server is configured with ("" = "/"): only paths under it are registered
-	Method   string
-	Path     string
-	CT       []string  // Content-Type header values (nil = absent)
-	Hdrs     []HdrPair // extra request headers
-	BodyKind string    // proto | json | frames | frames-cut | raw
-	Msg      MsgSpec   `json:",omitempty"`
-	NFrames  int       `json:",omitempty"`
-	Raw      []byte    `json:",omitempty"`
+	Carrier string // http | httpmux
+	// ShortUnary: separate mode over real TCP: the request is cut short at ShortAt (an offset, or with
+	// ShortBoundary the index of a field boundary) and the client half-closes
+	ShortUnary    bool   `json:",omitempty"`
+	ShortAt       int    `json:",omitempty"`
+	ShortBoundary bool   `json:",omitempty"`
+	NoLength      bool   `json:",omitempty"` // the request arrives without a declared length (chunked upload, HTTP/2 without content-length)
+	Detail        bool   `json:",omitempty"` // the handler's error status carries a detail (an Any of a type the server does not know)
+	Renderer      bool   `json:",omitempty"` // the server is configured with a custom ErrorRenderer (errors in band: always 200); it is application code too
+	Base          string `json:",omitempty"` // base path the server is configured with ("" = "/"): only paths under it are registered
+	Method        string
+	Path          string
+	CT            []string  // Content-Type header values (nil = absent)
+	Hdrs          []HdrPair // extra request headers
+	BodyKind      string    // proto | json | frames | frames-cut | raw
+	Msg           MsgSpec   `json:",omitempty"`
+	NFrames       int       `json:",omitempty"`
+	Raw           []byte    `json:",omitempty"`
 	// handler behaviour once invoked
 	// frames-cut: the frame sequence is truncated; CutFrame/CutAt say where (bytes of frame CutFrame kept; 0 = at the boundary)
 	CutFrame int `json:",omitempty"`
@@ -279,7 +288,71 @@ func newHTTPHandlerOnly(carrier string, desc *grpc.ServiceDesc, svc interface{})
 	return s
 }
 
+// c11ShortUnary: the client announces a unary request of N bytes, sends only part of it and then closes its
+// sending side in an orderly way (FIN). Over a real TCP connection to a real net/http server. An incomplete
+// request is not a request: the handler does not run and the answer is not a success - even when the bytes that
+// did arrive end on a field boundary and would decode as a (different) message.
+func c11ShortUnary(c c11Case) *Outcome {
+	o := &Outcome{NonTrivial: true}
+	full := mustMarshal(c.Msg.Build())
+	// candidate cut points: every field boundary and the drawn offset
+	var bounds []int
+	for off := 0; off < len(full); {
+		_, _, n := protowire.ConsumeField(full[off:])
+		if n <= 0 {
+			break
+		}
+		bounds = append(bounds, off)
+		off += n
+	}
+	k := c.ShortAt
+	if c.ShortBoundary && len(bounds) > 0 {
+		k = bounds[c.ShortAt%len(bounds)]
+	}
+	if len(full) == 0 || k >= len(full) {
+		return o // nothing to leave out
+	}
+	if k < 0 {
+		k = 0
+	}
+	o.class("short-unary-body/on-field-boundary=%v", c.ShortBoundary)
+	r := &c11Run{}
+	srv := httptest.NewServer(newHTTPHandlerBase(c.Carrier, "", newServiceDesc(), c.service(r)))
+	defer srv.Close()
+	conn, err := net.Dial("tcp", srv.Listener.Addr().String())
+	if err != nil {
+		o.Inconclusive = "harness: dial: " + err.Error()
+		return o
+	}
+	defer conn.Close()
+	conn.SetDeadline(time.Now().Add(stallBound))
+	fmt.Fprintf(conn, "POST %s HTTP/1.1\r\nHost: verif.test\r\nContent-Type: application/x-protobuf\r\nContent-Length: %d\r\nConnection: close\r\n\r\n", mUnary, len(full))
+	conn.Write(full[:k])
+	conn.(*net.TCPConn).CloseWrite()
+	resp, rerr := http.ReadResponse(bufio.NewReader(conn), nil)
+	status, gs := 0, ""
+	if rerr == nil {
+		status, gs = resp.StatusCode, resp.Header.Get("X-Grpc-Status")
+		io.Copy(io.Discard, resp.Body)
+		resp.Body.Close()
+	}
+	r.mu.Lock()
+	runs := r.appRuns
+	r.mu.Unlock()
+	o.Observed = map[string]interface{}{"announced": len(full), "sent": k, "status": status, "x-grpc-status": gs, "app_runs": runs, "read_err": errStr(rerr)}
+	if runs != 0 {
+		return o.failf("%s: unary request announced as %d bytes, %d bytes sent, then the sending side closed: the handler ran on the incomplete request (HTTP %d)", c.Carrier, len(full), k, status)
+	}
+	if rerr == nil && status >= 200 && status < 300 && (gs == "" || strings.HasPrefix(gs, "0")) {
+		return o.failf("%s: incomplete unary request (%d of %d bytes) answered with success: HTTP %d X-GRPC-Status %q", c.Carrier, k, len(full), status, gs)
+	}
+	return o
+}
+
 func propC11(c c11Case) *Outcome {
+	if c.ShortUnary {
+		return c11ShortUnary(c)
+	}
 	o := &Outcome{}
 	kind, registered := c11Paths[c11Rel(c.Base, c.Path)]
 	if c.Base != "" {
@@ -421,8 +494,17 @@ func propC11(c c11Case) *Outcome {
 		o.class("cut:inside=%v/after-preface=%v", inside, c.CutAt == 4)
 		// (methods that take one request refuse anything after the first frame; that is C20's subject, so
 		// only bodies of at most one frame are judged for them)
-		judged := clientStreaming(kind) || complete == 0 || (complete == 1 && !inside && c.NFrames == 1)
+		judged := clientStreaming(kind) || complete == 0 || (complete == 1 && !inside)
 		if !judged {
+			// a method that takes one request got its complete first frame and then more bytes (a further
+			// frame, or a fragment of one): that is not a well-formed single request. Whatever error the
+			// library picks, the handler's one RecvMsg must not succeed and the call must not end OK.
+			if rep.AppRuns != 0 {
+				return o.failf("single-request method: %d complete frame(s) followed by more bytes (cut in frame %d after %d bytes): the handler's RecvMsg succeeded as if the request were well-formed", complete, c.CutFrame, c.CutAt)
+			}
+			if d.TrailerMsg.Code == 0 && c.RetRecvErr {
+				return o.failf("single-request method: malformed request (extra bytes after the first frame), handler returned its receive error %q, trailer says OK", rep.RecvErr)
+			}
 			return o
 		}
 		if rep.AppRuns != complete {
@@ -513,6 +595,16 @@ var c11CTs = []string{"application/x-protobuf", "application/json", "application
 	"application/jsonx", "application", "/", "", "*/*", "application/x-protobuf, application/json", "application/json/x", "json"}
 
 func genC11(t *rapid.T) c11Case {
+	if rapid.IntRange(0, 39).Draw(t, "shortunary") == 0 {
+		c := c11Case{Carrier: rapid.SampledFrom([]string{cHTTP, cHTTPMux, cHTTPPer}).Draw(t, "carrier"), ShortUnary: true, Method: "POST", Path: mUnary,
+			ShortAt: rapid.IntRange(0, 400).Draw(t, "shortat"), ShortBoundary: rapid.Bool().Draw(t, "shortboundary")}
+		c.Msg = genMsg(t, "msg", 300)
+		c.Msg.Anys, c.Msg.Unknown = nil, nil
+		if c.Msg.Empty {
+			c.Msg = MsgSpec{Raw: []byte("payload"), Count: 7, Code: 9}
+		}
+		return c
+	}
 	c := c11Case{Carrier: rapid.SampledFrom([]string{cHTTP, cHTTPMux, cHTTPPer}).Draw(t, "carrier")}
 	c.Method = "POST"
 	if rapid.IntRange(0, 4).Draw(t, "oddmethod") == 0 {
